@@ -117,16 +117,21 @@ theorem duplicate_dropped (c : Conn) (x : Channel) (b : Bunch) (hrel : b.bReliab
 its sequence is exactly `InReliable + 1` -/
 theorem next_only (c : Conn) (x : Channel) (b : Bunch) (hrel : b.bReliable = true)
     (h : c.processBunch x b = c.receivedNextBunch b) (hne : c.receivedNextBunch b ≠ (c.emit (.free .node), false))
-    (hq : ∀ q, c.receivedNextBunch b ≠ (c.setChan b.chIndex { x with inRec := q }, false)) : b.chSeq = x.inReliable + 1 := by
+    (hq : ∀ q, c.receivedNextBunch b ≠ (c.setChan b.chIndex { x with inRec := q }, false))
+    (hfull : c.receivedNextBunch b ≠ (c.emit (.free .node), true)) : b.chSeq = x.inReliable + 1 := by
   unfold Conn.processBunch at h
   by_cases h1 : b.chSeq ≤ x.inReliable
   · simp [hrel, h1] at h; exact absurd h.symm hne
   · by_cases h2 : b.chSeq = x.inReliable + 1
     · exact h2
     · simp only [hrel, h1, h2, Bool.true_and, decide_false, Bool.false_eq_true, if_false, bne_iff_ne, ne_eq, not_false_eq_true, decide_true, if_true] at h
-      cases he : enqueueIncoming b x.inRec with
-      | none => simp [he] at h; exact absurd h.symm hne
-      | some q => simp [he] at h; exact absurd h.symm (hq q)
+      split at h
+      · have h' := congrArg Prod.snd h
+        have h'' := congrArg Prod.fst h
+        exact absurd (show c.receivedNextBunch b = (c.emit (.free .node), true) from h.symm) (hfull)
+      · cases he : enqueueIncoming b x.inRec with
+        | none => simp [he] at h; exact absurd h.symm hne
+        | some q => simp [he] at h; exact absurd h.symm (hq q)
 
 /-- the waiting queue is drained only through its head, and only while the head is the next sequence -/
 theorem dispatch_stops (fuel : Nat) (c : Conn) (ch : Nat) (x : Channel) (b : Bunch) (rest : List Bunch)
